@@ -50,6 +50,17 @@ REPEATS = [
 ]
 
 
+# C16 only: code that is parsed but not live (dead ?: arms, values nobody uses) - both layouts must still report the same
+# attributes and denote the same effect (whether a layout prints dead declarations is C12's business)
+DEAD_CODE = [
+    "{ EA = RsV; RdV = (1 == 0 ? ((int64_t)((int32_t)mem_load_s32(EA))) : 2); }", "{ EA = RsV; RdV = (0 ? ((int32_t)mem_load_s32(EA)) : RtV); }",
+    "{ EA = RsV; RdV = (1 ? RtV : ((int32_t)mem_load_s32(EA)) + 1); }", "{ EA = RsV; ((int32_t)mem_load_s32(EA)); RdV = RtV; }",
+    "{ RdV = (0 ? PuN : RtV); }", "{ RdV = (1 ? RtV : (PuV ? NsN : RtV)); }", "{ RdV = (0 ? P0 : RtV); if (0) { P1 = RsV; } }",
+    "{ if (1 == 0) { EA = RsV; mem_store_u32(EA, RtV); } RdV = RsV; }", "{ if (0) { JUMP(RsV); } RdV = RsV; }",
+    "{ RdV = RsV; (RtV + 1); }", "{ RdV = (1 ? RsV : clz32(RtV)); }",
+]
+
+
 def problems_for(prop: str, rep: dict) -> list[str]:
     if "error" in rep:
         return ["driver error: " + rep["error"][:100]]
@@ -366,7 +377,8 @@ def run_prop(prop: str, tier: str, replay=None) -> int:
 
     # ---- generated programs ------------------------------------------------------------------------
     n_clean, n_wild = (120, 120) if tier == "quick" else (1500, 1500)
-    items, gstats = textcheck.gen_run(n_clean, n_wild, CLEAN_FORBIDDEN[prop], rng_salt=int(prop[1:]), extra_programs=REPEATS)
+    items, gstats = textcheck.gen_run(n_clean, n_wild, CLEAN_FORBIDDEN[prop], rng_salt=int(prop[1:]),
+                                      extra_programs=REPEATS + (DEAD_CODE if prop == "C16" else []))
     # sub-routines whose compiled body sets a compiler temporary h_tmpN (flat namespace shared with callers)
     tmp_callees = [n for n, _, _, text in rc.sub_routine_defs(rc.compiler()) if 'SETL("h_tmp' in text]
     for it in items:
